@@ -386,14 +386,6 @@ def gen_cases(rng, tier):
     if tier != "search":
         for n, (fn, fl, what, i) in enumerate(FORK_SPOTS):
             cases.append({"kind": "fork", "cls": "fork", "func": fn, "file": fl, "what": what, "lines": i, "warm": n % 2 == 0})
-        # the parked thread holds the per-instance lock of a cached Process (inside as_dict -> oneshot): a genuine defect of
-        # the tree (notes/findings/C04.json); generated once the coordinator has recorded it as known (then the child's
-        # process_iter(attrs=...) is expected to hang) or fixed (then it must work)
-        fstat = _finding_status(FINDING_FORK)
-        if fstat in ("known", "fixed"):
-            for i in (10, 12):
-                cases.append({"kind": "fork", "cls": "fork-instance-lock", "func": "as_dict", "file": "psutil/__init__.py",
-                              "what": "iter_attrs", "lines": i, "warm": True, "defect_model": fstat == "known"})
     # the running kernel: Name: escaping of a child process and of one of its threads, and psutil on the real /proc
     if tier != "search":
         for comm in (b"x\rTgid:\t1", b"\rTgid:\t1", b"a\nb\\c\td:e", b"\x0b\x0c\x1c\x1d\x1e\xc2\x85", b"\xe2\x80\xa8Tgid:\t1",
@@ -574,10 +566,7 @@ def coq_struct(case, raw):
         mine = {"iter": [1, 2, 3], "pids": [1, 2, 3], "exists": True, "iter_attrs": [1, 2, 3]}[case["what"]]
         want = [["ok", mine], {"pids": [1, 2, 3], "exists2": True, "exists99": False, "iter": [1, 2, 3], "iter2": [1, 2, 3],
                                "iter_attrs": [1, 2, 3]}]
-        model = want
-        if case.get("defect_model"):      # known finding: the inherited cached instance's lock is held for ever
-            model = [want[0], dict(want[1], iter_attrs="HANG")]
-        return {"model": model, "spec": want}
+        return {"model": want, "spec": want}
     if k == "listing":
         spec = raw[2]
         if spec is not None:
@@ -595,21 +584,6 @@ def coq_struct(case, raw):
 
 # ------------------------------------------------------------------ verdicts
 FINDING = "process_iter-skips-recycled-pid"
-FINDING_FORK = "fork-child-inherits-held-process-lock"
-
-
-def _finding_status(key):
-    """status of a C04 entry in known_findings.json ('known' / 'fixed' / None when the coordinator has not merged it)"""
-    import json
-    try:
-        with open(os.path.join(os.path.dirname(os.path.dirname(os.path.abspath(__file__))), "known_findings.json")) as f:
-            for e in json.load(f).get("findings", []):
-                if e.get("property") == ID and e.get("key") == key:
-                    return e.get("status")
-    except Exception:  # noqa
-        pass
-    return None
-
 
 
 def finding_key(case, coq):
@@ -618,8 +592,6 @@ def finding_key(case, coq):
     is_running() before the iteration, or found reused by ppid() inside as_dict) and was dropped instead of replaced."""
     if case["kind"] == "hist" and isinstance(coq, dict) and coq.get("stale_skip"):
         return FINDING
-    if case["kind"] == "fork" and case.get("func") == "as_dict" and case.get("defect_model"):
-        return FINDING_FORK
     return None
 
 
